@@ -177,8 +177,8 @@ Qed.
 Definition Body (b : bstate) (next : splan) : Prop :=
   (exists d pr, In d (b_demote b) /\ In pr (b_promote b) /\ next = SPlan 0 0 None None (Some pr) (Some d))
   \/ (exists d a, In d (b_demote b) /\ In a (b_add b) /\ is_learner a = false /\ next = SPlan 0 0 (Some a) None None (Some d))
-  \/ (exists a x, In a (b_add b) /\ In x (b_remove b) /\ is_learner x = is_learner a /\ cur_free b (pstore a) = true
-                  /\ next = SPlan 0 0 (Some a) (Some x) None None)
+  \/ (exists a x, In a (b_add b) /\ In x (b_remove b) /\ (is_learner x = is_learner a \/ single_replace b = true)
+                  /\ cur_free b (pstore a) = true /\ next = SPlan 0 0 (Some a) (Some x) None None)
   \/ (exists pr a x, In pr (b_promote b) /\ In a (b_add b) /\ In x (b_remove b) /\ is_learner a = true /\ is_learner x = false
                      /\ cur_free b (pstore a) = true /\ next = SPlan 0 0 (Some a) (Some x) (Some pr) None)
   \/ (exists d x a, In d (b_demote b) /\ In x (b_remove b) /\ In a (b_add b) /\ is_learner x = true /\ is_learner a = false
@@ -205,9 +205,10 @@ Proof.
     destruct (negb (is_learner a)) eqn:E; [|apply chosen_refl]. apply negb_true_iff in E.
     apply prl_QR. right. left. exists d, a. auto.
   - intros b1 a Ha. apply (fold_chosen (QR b)). intros b2 x Hx.
-    destruct (Bool.eqb (is_learner x) (is_learner a) && cur_free b (pstore a)) eqn:E; [|apply chosen_refl].
-    apply andb_true_iff in E as [E1 E2]. apply Bool.eqb_prop in E1.
-    apply prl_QR. right. right. left. exists a, x. auto.
+    destruct ((Bool.eqb (is_learner x) (is_learner a) || single_replace b) && cur_free b (pstore a)) eqn:E; [|apply chosen_refl].
+    apply andb_true_iff in E as [E1 E2].
+    apply prl_QR. right. right. left. exists a, x. repeat split; auto.
+    apply orb_true_iff in E1 as [E1|E1]; [left; apply Bool.eqb_prop; exact E1|right; exact E1].
   - intros b1 pr Hpr. apply (fold_chosen (QR b)). intros b2 a Ha.
     destruct (is_learner a) eqn:El; [|apply chosen_refl].
     apply (fold_chosen (QR b)). intros b3 x Hx.
@@ -253,7 +254,7 @@ Proof.
     match goal with |- NE (if ?c then _ else _) => destruct c end; [|exact H3].
     apply plan_replace_leaders_NE_keep; [reflexivity|exact H3]. }
   assert (K2 : forall bst, NE bst -> NE (fold_left (fun best a => fold_left (fun best r =>
-                  if Bool.eqb (is_learner r) (is_learner a) && cur_free b (pstore a)
+                  if (Bool.eqb (is_learner r) (is_learner a) || single_replace b) && cur_free b (pstore a)
                   then plan_replace_leaders b best (SPlan 0 0 (Some a) (Some r) None None) else best) (b_remove b) best)
                 (b_add b) bst)).
   { intros bst Hb. apply fold_NE; [|exact Hb]. intros b1 a _ H1. apply fold_NE; [|exact H1]. intros b2 r _ H2.
@@ -276,7 +277,7 @@ Proof.
     + intros b1. apply (fold_NE_hit _ _ x); [| exact Hx |].
       * intros b2 r _ H2. match goal with |- NE (if ?c then _ else _) => destruct c end; [|exact H2].
         apply plan_replace_leaders_NE_keep; [reflexivity|exact H2].
-      * intros b2. rewrite El, Ef. rewrite Bool.eqb_reflx. cbn [andb].
+      * intros b2. rewrite El, Ef. rewrite Bool.eqb_reflx. cbn [andb orb].
         apply (plan_replace_leaders_NE_hit b b2 _ la lr); [reflexivity|exact A1|exact A2|exact N2|exact N1].
 Qed.
 
